@@ -115,5 +115,29 @@ def nfaLanguageFile (answer refText : String) (s : Sched) (len : Nat) : Verdict 
     | _, _ => .error
   | _, _ => .error
 
+/-- `parse_word_list(word_list)`: split on white space, `ε` and `_` denote the empty word; a word is a Python string, i.e. one
+    symbol per character -/
+def parseWordList (wordList : String) : List (List String) :=
+  dedup ((Text.splitWs wordList.toList).map fun w =>
+    if w = ['ε'] ∨ w = ['_'] then [] else w.map String.singleton)
+
+/-- `check_automaton_accepts_rejects` on the verdicts of the acceptance test; an exception of the test propagates -/
+def acceptsRejectsWith (acc : List String → Except Err Bool) (accepted rejected : String) : Verdict :=
+  match (parseWordList accepted).mapM acc, (parseWordList rejected).mapM acc with
+  | .ok a, .ok r => ofBool (Check.acceptsRejects (a.map some) (r.map some))
+  | _, _ => .error
+
+/-- `check_dfa_accepts_rejects(dfa, accepted_words, rejected_words)` (`.error` = the call raises: this checker has no try/except) -/
+def dfaAcceptsRejects (dfa accepted rejected : String) : Verdict :=
+  match parseDfa dfa.toList with
+  | .ok D => acceptsRejectsWith D.accepts accepted rejected
+  | .error _ => .error
+
+/-- `check_cfg_accepts_rejects(cfg, accepted_words, rejected_words)` -/
+def cfgAcceptsRejects (cfg accepted rejected : String) : Verdict :=
+  match CfgText.parseSimpleCfg cfg.toList with
+  | .ok (G, _) => acceptsRejectsWith G.accepts accepted rejected
+  | .error _ => .error
+
 end CheckText
 end Gamba
